@@ -92,6 +92,10 @@ ssize_t _GD_RawRead(struct gd_raw_file_ *restrict file, void *restrict ptr,
   nread = read(file->idata, ptr, nmemb * GD_SIZE(data_type));
 
   if (nread >= 0) {
+    /* if the file ends in the middle of a sample, back up so that the
+     * descriptor stays aligned with file->pos */
+    if (nread % GD_SIZE(data_type))
+      lseek64(file->idata, -(off64_t)(nread % GD_SIZE(data_type)), SEEK_CUR);
     nread /= GD_SIZE(data_type);
     file->pos += nread;
   }
